@@ -28,7 +28,11 @@ KERNELS = {0: 'gauss_seidel', 1: 'gauss_seidel_x', 2: 'gauss_seidel_y',
            3: 'gauss_seidel_z'}
 
 
-def _sym_problem(shape, aniso='triaxial'):
+def _sym_problem(shape, aniso='triaxial', sparse=False):
+    """sparse: zero source and a field supported on ONE grid line per
+    component (all other entries exactly zero) -- the error-propagation
+    probe: many local right-hand sides are then exactly zero while the
+    unknowns are not."""
     c = set_ctx(Ctx(timeout_ms=120000))
     State.OBJECT_ALLOC = True
     h = [sym_array(f"h{'xyz'[d]}", shape[d], positive=True) for d in range(3)]
@@ -45,6 +49,18 @@ def _sym_problem(shape, aniso='triaxial'):
     for d in range(3):
         for idx in fit.boundary_edges(shape, d):
             e[d][idx] = Q(Fraction(0))     # distinct object per entry
+    if sparse is not False:
+        dc, last = sparse          # the one component that carries a field
+        for d in range(3):
+            for idx in np.ndindex(*s[d].shape):
+                s[d][idx] = Q(Fraction(0))
+            d1, d2 = [k for k in range(3) if k != d]
+            # first or last interior line (whichever the sweep starts with)
+            l1 = shape[d1]-1 if last else 1
+            l2 = shape[d2]-1 if last else 1
+            for idx in np.ndindex(*e[d].shape):
+                if d != dc or not (idx[d1] == l1 and idx[d2] == l2):
+                    e[d][idx] = Q(Fraction(0))
     return c, h, [eta_x, eta_y, eta_z], zeta, e, s
 
 
@@ -130,9 +146,12 @@ def _free_ids(term, acc):
 
 def case_local_systems(case):
     """(a),(b),(c) for one kernel on one shape with nu sweeps."""
-    lr, shape, nu, aniso = case
+    lr, shape, nu, aniso = case[:4]
+    sparse = len(case) > 4 and str(case[4]).startswith('sparse')
     E = shadow.load()
-    c, h, eta, zeta, e, s = _sym_problem(shape, aniso)
+    c, h, eta, zeta, e, s = _sym_problem(
+        shape, aniso, (max(lr-1, 0), case[4] == 'sparse_last')
+        if sparse else False)
     before = [a.copy() for a in e]
     fs_ids = set()
     for arr in e+s:
@@ -151,8 +170,15 @@ def case_local_systems(case):
     finally:
         E.core.solve = real_solve
     build_s = time.time()-t0
-    grp = f"{KERNELS[lr]} shape={shape} nu={nu} aniso={aniso}"
+    grp = f"{KERNELS[lr]} shape={shape} nu={nu} aniso={aniso}" + (
+        " zero source, field on one line" if sparse else "")
     obs = []
+    if c.stats['forks']:
+        # a data-dependent branch in a smoother (the kernels are straight-
+        # line code): only one side was executed -> not a verdict
+        obs.append(ob("harness: the kernel branched on a symbolic value "
+                      f"({c.stats['forks']} forks); only one branch was "
+                      "executed", 'error', group=grp, cls='-'))
     keyb = f"{KERNELS[lr]} local system != operator rows"
     nrows = 0
     for blk in rec.blocks:
@@ -497,10 +523,32 @@ def _replay_kernel(shape, lr, nu, aniso='triaxial'):
          zeta, h[0], h[1], h[2], nu)
     bnd = max(abs(e3[d][idx]) for d in range(3)
               for idx in fit.boundary_edges(shape, d))
-    bad = dfix > 1e-9 or bnd > 0
+    # zero source: the smoother is linear in the field; probe with a field
+    # supported on one grid line per component (exactly zero elsewhere)
+    def S(f):
+        f = [x.copy() for x in f]
+        z = [np.zeros_like(x) for x in f]
+        kern(f[0], f[1], f[2], z[0], z[1], z[2], eta[0], eta[1], eta[2],
+             zeta, h[0], h[1], h[2], nu)
+        return f
+    dlin = 0.0
+    for last in (False, True):
+        e1 = [np.zeros_like(x) for x in e]
+        for d in [max(lr-1, 0)] if lr < 4 else range(3):
+            d1, d2 = [k for k in range(3) if k != d]
+            l1 = shape[d1]-1 if last else 1
+            l2 = shape[d2]-1 if last else 1
+            for idx in fit.interior_edges(shape, d):
+                if idx[d1] == l1 and idx[d2] == l2:
+                    e1[d][idx] = e[d][idx]
+        a, b, ab = S(e1), S(e), S([x+y for x, y in zip(e1, e)])
+        dlin = max(dlin, max(np.abs(z_-x-y).max()
+                             for x, y, z_ in zip(a, b, ab)))
+    bad = dfix > 1e-9 or bnd > 0 or dlin > 1e-9
     return bad, (f"compiled {KERNELS[lr]} on {shape}, nu={nu}: exact "
                  f"solution moved by {dfix:.3e}; max |boundary| after "
-                 f"sweep {bnd:.3e}")
+                 f"sweep {bnd:.3e}; zero source, S(e1+e2)-S(e1)-S(e2) = "
+                 f"{dlin:.3e} for e1 on one line")
 
 
 def _replay_order(shape, lr, nu):
@@ -640,6 +688,15 @@ def main(tier):
                         continue
                     jobs.append(('case_local_systems',
                                  (lr, tuple(shp), nu, 'triaxial')))
+    # zero source, field supported on one line (error-propagation probe):
+    # local right-hand sides that are exactly zero
+    for lr, shp in [(0, (3, 3, 3)), (1, (3, 3, 3)), (2, (3, 3, 3)),
+                    (3, (3, 3, 3)), (1, (4, 3, 2)), (2, (3, 4, 3)),
+                    (3, (2, 3, 4))]:
+        for nu in (1, 2):
+            for mode in ('sparse', 'sparse_last'):
+                jobs.append(('case_local_systems', (lr, shp, nu, 'triaxial',
+                                                    mode)))
     # anisotropy aliasing cases on one shape per kernel
     for lr, shp in [(0, (3, 3, 3)), (1, (3, 2, 3)), (2, (3, 3, 2)),
                     (3, (2, 3, 3))]:
